@@ -13,7 +13,7 @@
    The checkers [linear_path_valid], [ssa_path_valid], [tree_complete_b] are what the
    check runs, inside Coq, on every path / tree the real optimizers return. *)
 From Coq Require Import Lia Permutation.
-From Ctg Require Import Base Net PathValid Processor BaseFacts PathValidFacts ProcessorFacts.
+From Ctg Require Import Base Net PathValid Processor BaseFacts PathValidFacts ProcessorFacts BuilderFacts.
 
 (* ---- path_valid_sound -------------------------------------------------------- *)
 (* an accepted linear path: every step references existing distinct positions, the
@@ -87,6 +87,36 @@ Theorem C05_processor_paths_valid_partial : forall n os a choose fuel, 1 <= n ->
              ssa_path_valid n (a_path a') = true.
 Proof. exact processor_ssa_path_valid. Qed.
 Print Assumptions C05_processor_paths_valid_partial.
+
+(* ---- partition_builder_complete ------------------------------------------------ *)
+(* core.separate: the groups are non-empty and together are exactly the argument *)
+Theorem C05_separate_partitions : forall (xs : list nat) bs, length xs <= length bs ->
+  Permutation (concat (separate xs bs)) xs /\ forall g, In g (separate xs bs) -> g <> [].
+Proof. intros xs bs H. split; [now apply separate_perm|apply separate_nonempty]. Qed.
+Print Assumptions C05_separate_partitions.
+
+(* PartitionTreeBuilder.build_divide with an ARBITRARY membership oracle of the right length,
+   an arbitrary cutoff and any valid sub-path oracle terminates (fuel = number of tensors:
+   every community of a split into >= 2 is strictly smaller) and returns a binary tree over
+   exactly the inputs; the cutoff, one-community and parts >= nodes branches are cases of the
+   proof.  (Model: the tree.childless work list unfolded as a recursion, see docs.) *)
+Theorem C05_partition_builder_complete_divide :
+  forall (sub : list nset -> path) (memb_fn : nset -> list nat) cutoff n,
+  (forall ls : list nset, 3 <= length ls -> binary_path_valid (length ls) (sub ls) = true) ->
+  (forall s, length (memb_fn s) = length s) -> 1 <= n ->
+  exists t, build_divide sub memb_fn cutoff n = Some t /\ Permutation (leaves t) (seq 0 n).
+Proof. intros sub memb_fn cutoff n H1 H2. exact (build_divide_complete sub H1 memb_fn H2 cutoff n). Qed.
+Print Assumptions C05_partition_builder_complete_divide.
+
+(* build_agglom as it is in /repo now (break when a round merges nothing), ARBITRARY membership
+   oracle of the right length: terminates within n rounds and returns a complete tree *)
+Theorem C05_partition_builder_complete_agglom :
+  forall (sub : list nset -> path) (memb_fn : list nset -> list nat) groupsize n,
+  (forall ls : list nset, 3 <= length ls -> binary_path_valid (length ls) (sub ls) = true) ->
+  (forall l, length (memb_fn l) = length l) -> 1 <= n ->
+  exists t, build_agglom sub memb_fn groupsize n = Some t /\ Permutation (leaves t) (seq 0 n).
+Proof. intros sub memb_fn groupsize n H1 H2. exact (build_agglom_complete sub H1 memb_fn H2 groupsize n). Qed.
+Print Assumptions C05_partition_builder_complete_agglom.
 
 (* ---- the OLD build_agglom loop did not terminate (finding 17, fixed by /repo 001d170) --- *)
 (* [build_agglom_old] is the loop as it was before the fix: a partition function of the right
